@@ -2,7 +2,8 @@ import Thanos.Model.Sharding
 /-
   C44 — specification-level evaluation of a PromQL fragment at one timestamp (the engine is
   third-party): selectors, pointwise functions / filters, aggregations `by` / `without` of any
-  nesting depth, with any aggregation operator.  Values are `Int` (the harness uses
+  nesting depth, with any aggregation operator, and vector matching `on` / `ignoring`
+  (one-to-one arithmetic, comparison filters, `and`, `unless`, `or`).  Values are `Int` (the harness uses
   integer-valued samples); an aggregation operator is a function of the group's values in input
   order, so no commutativity is assumed.
 -/
@@ -23,6 +24,11 @@ inductive VExpr where
   | sel (p : Labels → Bool)
   | fn (g : Labels → Int → Option Series) (e : VExpr)
   | agg (key : Labels → Labels) (op : List Int → Int) (e : VExpr)
+  /-- vector matching: every series of the left operand is combined with the series of the right
+      operand that has the same signature, if any (`+ on(..)`, comparisons, `and`, `unless`) -/
+  | binL (sig : Labels → Labels) (f : Series → Option Series → Option Series) (l r : VExpr)
+  /-- concatenation (the two halves of `or`) -/
+  | append (l r : VExpr)
 
 def groupAgg (key : Labels → Labels) (op : List Int → Int) (v : Vec) : Vec :=
   (nub (v.map fun s => key s.1)).map fun k => (k, op ((v.filter fun s => key s.1 = k).map (·.2)))
@@ -31,6 +37,9 @@ def eval : VExpr → Vec → Vec
   | .sel p, s => s.filter fun x => p x.1
   | .fn g e, s => (eval e s).filterMap fun x => g x.1 x.2
   | .agg key op e, s => groupAgg key op (eval e s)
+  | .binL sig f l r, s =>
+    (eval l s).filterMap fun x => f x ((eval r s).find? fun y => sig y.1 = sig x.1)
+  | .append l r, s => eval l s ++ eval r s
 
 /-- the series a store hands to shard `i` -/
 def shardOf (sh : Labels → Nat) (i : Nat) (v : Vec) : Vec := v.filter fun s => sh s.1 = i
